@@ -82,3 +82,31 @@ Lemma structure_facts :
   TimerQueue_reset_rearms_head_iff_valid = true /\
   TimerQueue_cancelInLoop_found_erases_both_deletes = true /\ TimerQueue_cancelInLoop_marks_canceling = true.
 Proof. repeat split; reflexivity. Qed.
+
+(* Timer::restart / addTime arithmetic, the destructor sweep and the EventLoop wrappers, as read off the AST:
+   - addTime(t, seconds) = Timestamp(t.us + static_cast<int64_t>(seconds * kMicroSecondsPerSecond)): the interval,
+     a double number of seconds, enters the deadline arithmetic only through this truncated product (the delta =
+     o_iv of the model; 0 for an interval below one microsecond; the product is rounded to double first, so e.g.
+     0.0029 s gives 2899 us);
+   - Timer::restart(now) = repeat_ ? expiration_ := addTime(now, interval_) : invalid  (model: o_exp := now + o_iv);
+   - Timer::Timer: repeat_ = (interval > 0.0)  (model: o_repeat = (0 <=? o_iv), o_iv < 0 encoding "not repeating");
+   - ~TimerQueue deletes exactly the timers in timers_ (model: destroy);
+   - runAt(t) = addTimer(cb, t, 0.0); runAfter(d) = runAt(addTime(now(), d)); runEvery(i) = addTimer(cb, addTime(now(), i), i);
+     EventLoop::cancel forwards to TimerQueue::cancel = runInLoop(cancelInLoop(id)). *)
+Lemma structure_facts_arith :
+  Timestamp_addTime_truncates_product = true /\ Timer_restart_adds_interval_to_now = true /\
+  Timer_ctor_repeat_iff_interval_positive = true /\ TimerQueue_dtor_deletes_exactly_timers = true /\
+  EventLoop_runAt_is_addTimer_interval_zero = true /\ EventLoop_runAfter_is_runAt_addTime_now = true /\
+  EventLoop_runEvery_first_deadline_is_now_plus_interval = true /\ EventLoop_cancel_forwards = true /\
+  TimerQueue_cancel_hands_off_cancelInLoop = true.
+Proof. repeat split; reflexivity. Qed.
+(* the model's restart is that arithmetic on the delta *)
+Lemma restart_is_now_plus_delta : forall st a o now ex st', hget a (heap st) = Some o ->
+  o_repeat o && negb (kmem (a, o_seq o) (canceling st)) = true ->
+  reset_loop st ((o_exp o, a) :: ex) now = Ok st' ->
+  exists st2 e, insert (set_heap st (hput a (mkT (o_seq o) (now + o_iv o) (o_iv o)) (heap st))) a = Ok (st2, e) /\
+               reset_loop st2 ex now = Ok st'.
+Proof.
+  intros st a o now ex st' G Br H. cbn [reset_loop] in H. unfold deref in H. rewrite G in H. cbn [bind] in H. rewrite Br in H.
+  destruct (insert _ a) as [[st2 e]| |]; cbn [bind] in H; try discriminate. eauto.
+Qed.
